@@ -1,3 +1,400 @@
 package cqlref
 
-func selfTestTokens() error { return nil }
+import (
+	"bytes"
+	"crypto/md5"
+	"fmt"
+	"math/big"
+	"sort"
+)
+
+// Murmur3Token is Cassandra's Murmur3Partitioner token: the first 64 bits of
+// MurmurHash.hash3_x64_128(key, 0, len, seed 0), where – unlike reference MurmurHash3 –
+// every byte is a signed Java byte (sign-extended when widened to long).
+func Murmur3Token(key []byte) int64 {
+	const (
+		c1 = uint64(0x87c37b91114253d5)
+		c2 = uint64(0x4cf5ad432745937f)
+	)
+	n := len(key)
+	nblocks := n / 16
+	var h1, h2 uint64
+	getBlock := func(off int) uint64 {
+		// Cassandra: ((long) key.get(i) & 0xff) + (((long) key.get(i+1) & 0xff) << 8) + ...
+		var k uint64
+		for j := 0; j < 8; j++ {
+			k += uint64(key[off+j]) << (8 * uint(j))
+		}
+		return k
+	}
+	rotl := func(v uint64, r uint) uint64 { return v<<r | v>>(64-r) }
+	for i := 0; i < nblocks; i++ {
+		k1 := getBlock(i * 16)
+		k2 := getBlock(i*16 + 8)
+		k1 *= c1
+		k1 = rotl(k1, 31)
+		k1 *= c2
+		h1 ^= k1
+		h1 = rotl(h1, 27)
+		h1 += h2
+		h1 = h1*5 + 0x52dce729
+		k2 *= c2
+		k2 = rotl(k2, 33)
+		k2 *= c1
+		h2 ^= k2
+		h2 = rotl(h2, 31)
+		h2 += h1
+		h2 = h2*5 + 0x38495ab5
+	}
+	// tail: Java does `k2 ^= ((long) key.get(offset+14)) << 48` – a SIGNED byte widened to long
+	off := nblocks * 16
+	sb := func(i int) uint64 { return uint64(int64(int8(key[off+i]))) }
+	var k1, k2 uint64
+	switch n & 15 {
+	case 15:
+		k2 ^= sb(14) << 48
+		fallthrough
+	case 14:
+		k2 ^= sb(13) << 40
+		fallthrough
+	case 13:
+		k2 ^= sb(12) << 32
+		fallthrough
+	case 12:
+		k2 ^= sb(11) << 24
+		fallthrough
+	case 11:
+		k2 ^= sb(10) << 16
+		fallthrough
+	case 10:
+		k2 ^= sb(9) << 8
+		fallthrough
+	case 9:
+		k2 ^= sb(8)
+		k2 *= c2
+		k2 = rotl(k2, 33)
+		k2 *= c1
+		h2 ^= k2
+		fallthrough
+	case 8:
+		k1 ^= sb(7) << 56
+		fallthrough
+	case 7:
+		k1 ^= sb(6) << 48
+		fallthrough
+	case 6:
+		k1 ^= sb(5) << 40
+		fallthrough
+	case 5:
+		k1 ^= sb(4) << 32
+		fallthrough
+	case 4:
+		k1 ^= sb(3) << 24
+		fallthrough
+	case 3:
+		k1 ^= sb(2) << 16
+		fallthrough
+	case 2:
+		k1 ^= sb(1) << 8
+		fallthrough
+	case 1:
+		k1 ^= sb(0)
+		k1 *= c1
+		k1 = rotl(k1, 31)
+		k1 *= c2
+		h1 ^= k1
+	}
+	h1 ^= uint64(n)
+	h2 ^= uint64(n)
+	h1 += h2
+	h2 += h1
+	fmix := func(k uint64) uint64 {
+		k ^= k >> 33
+		k *= 0xff51afd7ed558ccd
+		k ^= k >> 33
+		k *= 0xc4ceb9fe1a85ec53
+		k ^= k >> 33
+		return k
+	}
+	h1 = fmix(h1)
+	h2 = fmix(h2)
+	h1 += h2
+	return int64(h1)
+}
+
+// RandomToken is Cassandra's RandomPartitioner token: abs(new BigInteger(md5(key))) with
+// BigInteger reading the digest as a signed (two's complement) big-endian number.
+func RandomToken(key []byte) *big.Int {
+	sum := md5.Sum(key)
+	n := fromTwos(sum[:])
+	return n.Abs(n)
+}
+
+// OrderedLess compares two keys the way ByteOrderedPartitioner orders tokens: unsigned bytes.
+func OrderedLess(a, b []byte) bool { return bytes.Compare(a, b) < 0 }
+
+// CompositeRoutingKey builds the routing key for a multi-column partition key.
+func CompositeRoutingKey(parts [][]byte) []byte {
+	if len(parts) == 1 {
+		return parts[0]
+	}
+	var out []byte
+	for _, p := range parts {
+		out = append(out, byte(len(p)>>8), byte(len(p)))
+		out = append(out, p...)
+		out = append(out, 0)
+	}
+	return out
+}
+
+// ---- placement ------------------------------------------------------------------------
+
+type Node struct {
+	ID     string
+	DC     string
+	Rack   string
+	Tokens []*big.Int // ring positions (for ordering only)
+}
+
+type ringEntry struct {
+	tok  *big.Int
+	node *Node
+}
+
+// Ring is a sorted token ring.
+type Ring struct {
+	entries []ringEntry
+	nodes   []*Node
+}
+
+func NewRing(nodes []*Node) *Ring {
+	r := &Ring{nodes: nodes}
+	for _, n := range nodes {
+		for _, t := range n.Tokens {
+			r.entries = append(r.entries, ringEntry{t, n})
+		}
+	}
+	sort.SliceStable(r.entries, func(i, j int) bool { return r.entries[i].tok.Cmp(r.entries[j].tok) < 0 })
+	return r
+}
+
+func (r *Ring) Len() int { return len(r.entries) }
+
+// Tokens returns the sorted ring tokens.
+func (r *Ring) Token(i int) *big.Int { return r.entries[i].tok }
+func (r *Ring) Owner(i int) *Node    { return r.entries[i].node }
+
+// Index returns the index of the first ring token >= t, wrapping to 0.
+func (r *Ring) Index(t *big.Int) int {
+	i := sort.Search(len(r.entries), func(i int) bool { return r.entries[i].tok.Cmp(t) >= 0 })
+	if i == len(r.entries) {
+		return 0
+	}
+	return i
+}
+
+// SimpleReplicas: the next rf distinct nodes clockwise starting at ring index i.
+func (r *Ring) SimpleReplicas(i, rf int) []*Node {
+	var out []*Node
+	seen := map[*Node]bool{}
+	for j := 0; j < len(r.entries) && len(out) < rf; j++ {
+		n := r.entries[(i+j)%len(r.entries)].node
+		if !seen[n] {
+			seen[n] = true
+			out = append(out, n)
+		}
+	}
+	return out
+}
+
+// NTSReplicas3x implements NetworkTopologyStrategy.calculateNaturalReplicas as in
+// Cassandra 3.x / 4.x (DatacenterEndpoints with acceptableRackRepeats).
+func (r *Ring) NTSReplicas3x(i int, rfs map[string]int) []*Node {
+	type dcState struct {
+		rfLeft           int
+		acceptableRepeat int
+		racks            map[string]bool
+		endpoints        map[*Node]bool
+	}
+	dcNodes := map[string]map[*Node]bool{}
+	dcRacks := map[string]map[string]bool{}
+	for _, n := range r.nodes {
+		if dcNodes[n.DC] == nil {
+			dcNodes[n.DC] = map[*Node]bool{}
+			dcRacks[n.DC] = map[string]bool{}
+		}
+		dcNodes[n.DC][n] = true
+		dcRacks[n.DC][n.Rack] = true
+	}
+	states := map[string]*dcState{}
+	dcsToFill := 0
+	for dc, rf := range rfs {
+		nodes := len(dcNodes[dc])
+		if rf <= 0 || nodes == 0 {
+			continue
+		}
+		rfLeft := rf
+		if nodes < rfLeft {
+			rfLeft = nodes
+		}
+		states[dc] = &dcState{rfLeft: rfLeft, acceptableRepeat: rfLeft - len(dcRacks[dc]), racks: map[string]bool{}, endpoints: map[*Node]bool{}}
+		dcsToFill++
+	}
+	var out []*Node
+	inOut := map[*Node]bool{}
+	for j := 0; j < len(r.entries) && dcsToFill > 0; j++ {
+		n := r.entries[(i+j)%len(r.entries)].node
+		st := states[n.DC]
+		if st == nil || st.rfLeft == 0 {
+			continue
+		}
+		// addEndpointAndCheckIfDone
+		if st.endpoints[n] {
+			continue
+		}
+		st.endpoints[n] = true
+		if st.racks[n.Rack] {
+			// rack repeat
+			if st.acceptableRepeat <= 0 {
+				continue // cannot accept; (the endpoint stays marked as seen, as in Cassandra)
+			}
+			st.acceptableRepeat--
+		} else {
+			st.racks[n.Rack] = true
+		}
+		if !inOut[n] {
+			inOut[n] = true
+			out = append(out, n)
+		}
+		st.rfLeft--
+		if st.rfLeft == 0 {
+			dcsToFill--
+		}
+	}
+	return out
+}
+
+// NTSReplicas2x implements the Cassandra 2.x formulation (skipped endpoints per DC).
+func (r *Ring) NTSReplicas2x(i int, rfs map[string]int) []*Node {
+	dcNodes := map[string]map[*Node]bool{}
+	dcRacks := map[string]map[string]bool{}
+	for _, n := range r.nodes {
+		if dcNodes[n.DC] == nil {
+			dcNodes[n.DC] = map[*Node]bool{}
+			dcRacks[n.DC] = map[string]bool{}
+		}
+		dcNodes[n.DC][n] = true
+		dcRacks[n.DC][n.Rack] = true
+	}
+	replicas := []*Node{}
+	inRep := map[*Node]bool{}
+	dcReplicas := map[string]map[*Node]bool{}
+	seenRacks := map[string]map[string]bool{}
+	skipped := map[string][]*Node{}
+	for dc := range rfs {
+		dcReplicas[dc] = map[*Node]bool{}
+		seenRacks[dc] = map[string]bool{}
+	}
+	hasSufficient := func(dc string) bool {
+		rf := rfs[dc]
+		n := len(dcNodes[dc])
+		if n < rf {
+			rf = n
+		}
+		return len(dcReplicas[dc]) >= rf
+	}
+	all := func() bool {
+		for dc := range rfs {
+			if !hasSufficient(dc) {
+				return false
+			}
+		}
+		return true
+	}
+	add := func(dc string, n *Node) {
+		dcReplicas[dc][n] = true
+		if !inRep[n] {
+			inRep[n] = true
+			replicas = append(replicas, n)
+		}
+	}
+	for j := 0; j < len(r.entries) && !all(); j++ {
+		n := r.entries[(i+j)%len(r.entries)].node
+		dc := n.DC
+		if _, ok := rfs[dc]; !ok || rfs[dc] <= 0 || hasSufficient(dc) {
+			continue
+		}
+		if dcReplicas[dc][n] {
+			continue
+		}
+		if len(seenRacks[dc]) == len(dcRacks[dc]) {
+			add(dc, n)
+			continue
+		}
+		if seenRacks[dc][n.Rack] {
+			dup := false
+			for _, s := range skipped[dc] {
+				if s == n {
+					dup = true
+				}
+			}
+			if !dup {
+				skipped[dc] = append(skipped[dc], n)
+			}
+			continue
+		}
+		add(dc, n)
+		seenRacks[dc][n.Rack] = true
+		if len(seenRacks[dc]) == len(dcRacks[dc]) {
+			for len(skipped[dc]) > 0 && !hasSufficient(dc) {
+				s := skipped[dc][0]
+				skipped[dc] = skipped[dc][1:]
+				add(dc, s)
+			}
+		}
+	}
+	return replicas
+}
+
+func selfTestTokens() error {
+	// Expected values generated by the Java DataStax murmur3 implementation / Cassandra
+	// (the same published vectors other drivers test against); every tail length 0..15.
+	series := []uint64{
+		0x0000000000000000, 0x2ac9debed546a380, 0x649e4eaa7fc1708e, 0xce68f60d7c353bdb, 0x0f95757ce7f38254,
+		0x0f04e459497f3fc1, 0x88c0a92586be0a27, 0x13eb9fb82606f7a6, 0x8236039b7387354d, 0x4c1e87519fe738ba,
+		0x3f9652ac3effeb24, 0x3f33760ded9006c6, 0xaed70a6631854cb1, 0x8a299a8f8e0e2da7, 0x624b675c779249a6,
+		0xa4b203bb1d90b9a3, 0xa3293ad698ecb99a, 0xbc740023dbd50048, 0x3fe5ab9837d25cdd, 0x2d0338c1ca87d132,
+	}
+	sample := ""
+	for i, want := range series {
+		if got := Murmur3Token([]byte(sample)); got != int64(want) {
+			return fmt.Errorf("murmur3(%q) = %x, want %x", sample, got, int64(want))
+		}
+		sample += fmt.Sprint(i % 10)
+	}
+	more := map[string]uint64{
+		"hello": 0xcbd8a7b341bd9b02, "hello, world": 0x342fac623a5ebc8e, "19 Jan 2038 at 3:14:07 AM": 0xb89e5988b737affc,
+		"The quick brown fox jumps over the lazy dog.": 0xcd99481f9ee902c9,
+	}
+	for k, want := range more {
+		if got := Murmur3Token([]byte(k)); got != int64(want) {
+			return fmt.Errorf("murmur3(%q) = %x, want %x", k, got, int64(want))
+		}
+	}
+	// a key with bytes >= 0x80 in the tail: Cassandra's signed-byte behaviour
+	signKey := []byte{0x00, 0x10, 0x43, 0x27, 0x52, 0x9f, 0xb6, 0x45, 0xdd, 0x00, 0xb8, 0x83, 0xec, 0x39, 0xae, 0x44, 0x8b, 0xb8, 0x00, 0x00, 0x04, 0x00, 0x06, 0x6a, 0x6b, 0x00}
+	if got := Murmur3Token(signKey); got != -9223371632693506265 {
+		return fmt.Errorf("murmur3(sign key) = %d", got)
+	}
+	// python driver: MD5Token.hash_fn("test")
+	if rt := RandomToken([]byte("test")); rt.String() != "12707736894140473154801792860916528374" {
+		return fmt.Errorf("random(test) = %s", rt)
+	}
+	return nil
+}
+
+// MD5Negative reports whether the MD5 digest of key is negative as a signed 128-bit number.
+func MD5Negative(key []byte) bool {
+	sum := md5.Sum(key)
+	return sum[0]&0x80 != 0
+}
